@@ -62,6 +62,11 @@ void lp_global_init(void)
 	lid_node_first = partition_start(nid, n_nodes, lid_to_nid, 0, global_config.lps);
 	n_lps_node = partition_start(nid + 1, n_nodes, lid_to_nid, 0, global_config.lps) - lid_node_first;
 
+	if(unlikely(n_lps_node == 0)) {
+		logger(LOG_FATAL, "No LP is assigned to node %d: the simulation needs at least as many LPs as nodes", nid);
+		abort();
+	}
+
 	lps = mm_alloc(sizeof(*lps) * n_lps_node);
 	lps -= lid_node_first;
 
